@@ -44,6 +44,27 @@ Proof. exact plugin_le_min. Qed.
 Theorem C01_self : forall Y, (0 < length Y)%nat -> MI_plugin Y Y = H Y.
 Proof. exact plugin_self. Qed.
 
+(* the same consequences stated about the SCORE itself, as the property words them ("the score is symmetric, never
+   negative, zero when either vector is constant, at most the smaller entropy, the entropy on a self pair");
+   one-line compositions of C01_plugin with the facts about MI_plugin above *)
+Theorem C01_score_nonneg : forall Y X, length Y = length X -> (0 < length X)%nat -> 0 <= eval_R (entry Y X false).
+Proof. exact score_nonneg. Qed.
+
+Theorem C01_score_const_l : forall Y X a, length Y = length X -> (0 < length X)%nat ->
+  (forall v, In v Y -> v = a) -> eval_R (entry Y X false) = 0.
+Proof. exact score_const_l. Qed.
+
+Theorem C01_score_const_r : forall Y X a, length Y = length X -> (0 < length X)%nat ->
+  (forall v, In v X -> v = a) -> eval_R (entry Y X false) = 0.
+Proof. exact score_const_r. Qed.
+
+Theorem C01_score_le_min : forall Y X, length Y = length X -> (0 < length X)%nat ->
+  eval_R (entry Y X false) <= Rmin (H Y) (H X).
+Proof. exact score_le_min. Qed.
+
+Theorem C01_score_self : forall Y, (0 < length Y)%nat -> eval_R (entry Y Y false) = H Y.
+Proof. exact score_self. Qed.
+
 (* the chain rule in the form the code computes it: marginal entropy minus conditional entropy *)
 Theorem C01_chain : forall Y X, length Y = length X -> (0 < length X)%nat ->
   MI_plugin Y X = H Y - Hcond Y X.
@@ -67,3 +88,8 @@ Print Assumptions C01_const_r.
 Print Assumptions C01_le_min.
 Print Assumptions C01_self.
 Print Assumptions C01_chain.
+Print Assumptions C01_score_nonneg.
+Print Assumptions C01_score_const_l.
+Print Assumptions C01_score_const_r.
+Print Assumptions C01_score_le_min.
+Print Assumptions C01_score_self.
